@@ -109,6 +109,8 @@ pub type SharedFaults = Arc<Mutex<Faults>>;
 
 #[derive(Clone, Debug)]
 pub struct SchedSpec {
+    /// seed handed to random number generators of the code under test (part of the replay)
+    pub code_seed: u64,
     pub seed: u64,
     pub strategy: Strategy,
     pub replay: Option<Vec<Preempt>>,
@@ -249,7 +251,7 @@ where
         replay: sched.replay.clone(),
         fairness: 200,
         record_trace: sched.trace,
-        code_rng_seed: dsim::rng::splitmix(sched.seed ^ 0x636f6465),
+        code_rng_seed: sched.code_seed,
     };
     dsim::run(cfg, body)
 }
@@ -279,6 +281,8 @@ pub struct ReplayFile {
     pub engine: String,
     pub repo_head: String,
     pub hooks: String,
+    #[serde(default)]
+    pub code_seed: u64,
     #[serde(default)]
     pub schedule_hash: String,
     #[serde(default)]
@@ -378,6 +382,8 @@ pub struct FoundJ {
     pub violation: Violation,
     pub strategy: String,
     pub sched_seed: u64,
+    #[serde(default)]
+    pub code_seed: u64,
 }
 
 pub struct FoundViolation {
@@ -395,6 +401,7 @@ pub fn sched_for(scn: &dyn DynScenario, seed: u64, run: u64) -> SchedSpec {
     let rates = scn.fault_rates();
     let rate_pm = *r.pick(&rates);
     SchedSpec {
+        code_seed: dsim::rng::splitmix(seed ^ run.wrapping_mul(0x636f6465) ^ 0xc0de),
         seed: r.next_u64(),
         strategy,
         replay: None,
@@ -520,7 +527,7 @@ pub fn worker_main(scn: &'static dyn DynScenario, opts: &BatchOpts, offset: u64,
         };
         if let Some(v) = rep_violation {
             let _ = std::fs::write(rundir.join(format!("stop.{}", offset)), format!("{}", run));
-            a.found.push(FoundJ { run, plan, preemptions: to_pj(&preempts), faults: rep.faults, violation: v, strategy: sched.strategy.name(), sched_seed: sched.seed });
+            a.found.push(FoundJ { run, plan, preemptions: to_pj(&preempts), faults: rep.faults, violation: v, strategy: sched.strategy.name(), sched_seed: sched.seed, code_seed: sched.code_seed });
             break;
         }
         run += stride;
@@ -581,7 +588,7 @@ pub fn run_batch(scn: &'static dyn DynScenario, opts: &BatchOpts) -> i32 {
         let f = FoundViolation {
             run: fj.run,
             plan: fj.plan,
-            sched: { let mut s = sched_for(scn, opts.seed, fj.run); s.seed = fj.sched_seed; s },
+            sched: { let mut s = sched_for(scn, opts.seed, fj.run); s.seed = fj.sched_seed; s.code_seed = fj.code_seed; s },
             preemptions: from_pj(&fj.preemptions),
             faults: fj.faults,
             violation: fj.violation,
@@ -646,9 +653,10 @@ fn minimise_and_write(scn: &dyn DynScenario, opts: &BatchOpts, f: FoundViolation
     let mut viol = f.violation.clone();
     let original = json!({"plan_bytes": plan.to_string().len(), "preemptions": pre.len(), "faults": faults.len()});
     let budget_s = 120.0;
+    let code_seed = f.sched.code_seed;
 
     let attempt = |plan: &Value, pre: &[Preempt], faults: &[FaultDecision]| -> Option<(Violation, Vec<Preempt>, Vec<FaultDecision>)> {
-        let sched = SchedSpec { seed: 0, strategy: Strategy::Default, replay: Some(pre.to_vec()), faults: FaultMode::Scripted(faults.to_vec()), trace: false };
+        let sched = SchedSpec { code_seed, seed: 0, strategy: Strategy::Default, replay: Some(pre.to_vec()), faults: FaultMode::Scripted(faults.to_vec()), trace: false };
         let rep = scn.execute_json(plan, &sched);
         flush_epoch();
         if same_class(&rep.violation, &class) {
@@ -692,7 +700,7 @@ fn minimise_and_write(scn: &dyn DynScenario, opts: &BatchOpts, f: FoundViolation
                     continue 'plan;
                 }
                 for s in 0..6u64 {
-                    let sched = SchedSpec { seed: dsim::rng::splitmix(s ^ f.sched.seed), strategy: Strategy::Random, replay: None, faults: FaultMode::Scripted(faults.clone()), trace: false };
+                    let sched = SchedSpec { code_seed, seed: dsim::rng::splitmix(s ^ f.sched.seed), strategy: Strategy::Random, replay: None, faults: FaultMode::Scripted(faults.clone()), trace: false };
                     let rep = scn.execute_json(&cand, &sched);
                     flush_epoch();
                     if same_class(&rep.violation, &class) {
@@ -797,6 +805,7 @@ fn write_replay(
         engine: "dsim".into(),
         repo_head: repo_head(),
         hooks: "metrics_verif".into(),
+        code_seed: f.sched.code_seed,
         schedule_hash: String::new(),
         minimised_from: original.clone(),
     };
@@ -811,7 +820,7 @@ fn write_replay(
 pub fn replay_file(scn: &dyn DynScenario, path: &str, verbose: bool) -> Result<Option<Violation>, String> {
     let s = std::fs::read_to_string(path).map_err(|e| e.to_string())?;
     let rf: ReplayFile = serde_json::from_str(&s).map_err(|e| e.to_string())?;
-    let sched = SchedSpec { seed: 0, strategy: Strategy::Default, replay: Some(from_pj(&rf.preemptions)), faults: FaultMode::Scripted(rf.faults.clone()), trace: verbose };
+    let sched = SchedSpec { code_seed: rf.code_seed, seed: 0, strategy: Strategy::Default, replay: Some(from_pj(&rf.preemptions)), faults: FaultMode::Scripted(rf.faults.clone()), trace: verbose };
     let rep = scn.execute_json(&rf.plan, &sched);
     flush_epoch();
     if let Some(sim) = &rep.sim {
@@ -988,7 +997,7 @@ pub fn selftest_worker(scn: &'static dyn DynScenario, seed: u64, runs: u64, offs
             }
             bad += 1;
         } else if let Some(sim) = &a.sim {
-            let rs = SchedSpec { seed: 0, strategy: Strategy::Default, replay: Some(sim.preemptions.clone()), faults: FaultMode::Scripted(a.faults.clone()), trace: false };
+            let rs = SchedSpec { code_seed: sched.code_seed, seed: 0, strategy: Strategy::Default, replay: Some(sim.preemptions.clone()), faults: FaultMode::Scripted(a.faults.clone()), trace: false };
             let c = scn.execute_json(&plan, &rs);
             flush_epoch();
             let ok = c.sim.as_ref().map(|s| s.schedule_hash == sim.schedule_hash && s.unused_replay.is_empty()).unwrap_or(false) && c.observations == a.observations;
